@@ -391,3 +391,10 @@ PROPS['C01']['required_theorems'] += ['y_sign', 'y_sign_neg', 'hemisphere_follow
 PROPS['C03']['more_proof_modules'] = ['GeodeVerif.Proofs.C03b']
 PROPS['C03']['required_theorems'] += ['latStep_deriv', 'latStep_contraction_global', 'exit_close_to_fixed_point',
                                       'xyz2llh_exit_error_bound', 'fixed_point_exists', 'xyz2llh_llh2xyz_lat_error']
+
+PROPS['C18']['more_proof_modules'] = ['GeodeVerif.Proofs.C18b']
+PROPS['C18']['required_theorems'] += ['refinement_remove_velocity', 'remove_velocity_exact', 'readers_exact',
+                                      'wf_closed_removeStns', 'wf_closed_removeVel', 'edits_compose']
+PROPS['C18']['assumptions'] = ['Python text-mode newline handling, pandas (stubbed), datetime (substituted clock) are outside the model',
+                               'the readers theorem is about RSol renderings (abstract solution carrying the parsed columns); its side '
+                               'condition fieldsOk is kernel-checked on instances, not tied to generated files']
